@@ -365,6 +365,7 @@ static void run_c07(const vf::Args &args, Report &rep)
     std::vector<uint64_t> lens;
     for (uint64_t l = 0; l <= 264; l++) lens.push_back(l);
     for (uint64_t l : {1000ULL, 4096ULL, 4097ULL, 65537ULL}) lens.push_back(l);
+    if (args.thorough()) for (uint64_t l : {1048576ULL + 5, 777777ULL}) lens.push_back(l);
     uint64_t contents = args.getu("contents", args.thorough() ? 2000 : 48);
     uint64_t idx = 0;
     static const uint64_t SENT = 0x5E5E5E5E5E5E5E5EULL;
@@ -513,7 +514,7 @@ static void run_c08(const vf::Args &args, Report &rep)
     gen::G64 g;
     std::vector<TreeCfg> cfgs;
     std::vector<uint64_t> rowsv = {1, 2, 4, 8, 16, 32, 64, 128, 256};
-    if (args.thorough()) { rowsv.push_back(1024); rowsv.push_back(4096); }
+    if (args.thorough()) { rowsv.push_back(1024); rowsv.push_back(4096); rowsv.push_back(16384); }
     std::vector<uint64_t> colsv;
     for (uint64_t c = 0; c <= 20; c++) colsv.push_back(c);
     for (uint64_t c : {63ULL, 64ULL, 65ULL, 128ULL, 129ULL}) colsv.push_back(c);
@@ -530,6 +531,7 @@ static void run_c08(const vf::Args &args, Report &rep)
                 for (int b : builders)
                 {
                     if (rows >= 1024 && cols > 20) continue;
+                    if (rows >= 16384 && (cols > 9 || dim > 1)) continue;
                     std::vector<uint64_t> batches = {0};
                     if (b >= 4)
                     {
